@@ -53,19 +53,14 @@ Lemma sphere_g a GM w lat h : 0 < a -> 0 < GM -> m0of a GM w < 1/20 ->
     Val [(geS a GM w * (1 - sin2d lat) + gpS a GM w * sin2d lat) * hfac a 0 (m0of a GM w) (sin2d lat) h].
 Proof.
   intros Ha HG Hm. destruct (sphere_positive a GM w Ha HG Hm) as [P1 P2].
-  unfold C16_g_R. cbv zeta.
-  match goal with |- context [Req_EM_T (sqrt ?e) 0] => replace e with 0 by (field; lra) end.
-  rewrite sqrt_0. destruct (Req_EM_T 0 0) as [_|N]; [|exfalso; apply N; reflexivity].
+  destruct (sphere_exact a GM w Ha HG) as [S1 S2]. revert S1 S2.
+  unfold C16_ge_R, C16_gp_R, C16_g_R. sphere_branch a. intros S1 S2.
+  apply Val1_inv in S1. apply Val1_inv in S2. rewrite S1, S2.
   fold (sin2d lat).
-  replace (1 - (2*0 - 0^2) * sin2d lat) with 1 by ring. rewrite sqrt_1.
-  assert (E1 : GM * (1 - 3 * (w^2 * a^2 * (a*(1-0)) / GM) / 2) / (a * (a*(1-0))) = geS a GM w)
-    by (unfold geS, m0of; field; lra).
-  assert (E2 : GM * (1 + w^2 * a^2 * (a*(1-0)) / GM) / a^2 = gpS a GM w) by (unfold gpS, m0of; field; lra).
-  rewrite E1, E2.
-  destr_dec.
-  - subst h. rewrite hfac_0 by lra. val_eq. field. lra.
-  - val_eq. unfold hfac. replace (w^2 * a^2 * (a*(1-0)) / GM) with (m0of a GM w) by (unfold m0of; field; lra).
-    field. lra.
+  match goal with |- context [sqrt (1 - ?e)] => replace (1 - e) with 1 by ring end.
+  rewrite sqrt_1. unfold hfac.
+  assert (Em : m0of a GM w = w*w*(a*a*a)/GM) by reflexivity.
+  destr_dec; [subst h|]; val_eq; rewrite ?Em; field; repeat split; lra.
 Qed.
 
 (* potential and dynamical form factor of the sphere: the limits GM/a + w^2 a^2/3 and -m/3 *)
